@@ -15,6 +15,7 @@ from vf import core, gen, pipe, symx
 
 ID = "C09"
 N = 6
+BIG = 4100  # just over a power of two
 COLS_NUM = ["y", "x", "z", "w", "u", "my var"]
 COLS_CAT = {"f": list("ababab"), "g": list("ssttuu"), "v": list("pqpqpq")}
 
@@ -101,6 +102,11 @@ def cases(tier):
                     out.append((fi, pat, a, True, False))  # same, under an index with repeated labels
                     if pi % 4 == 1:
                         out.append((fi, pat, a, False, True))  # same, on a frame that has exactly the used columns
+    # frames of BIG rows: a missing value in the very last rows / just after row 4096
+    for fi in (0, 3):
+        for pat in ([("x", BIG - 1)], [("x", 4096)], [("y", 4097), ("x", 0)], [("u", BIG - 1)]):
+            for a in ("drop", "error") + (("pass",) if tier != "quick" else ()):
+                out.append((fi, pat, a, False, False))
     return out
 
 
@@ -141,10 +147,11 @@ def harness(env, case):
     fi, pat, action, dupindex, only_used = case
     formula, _, pointwise = FORMULAS[fi]
     used = used_from_text(formula)
+    N = BIG if any(r >= globals()["N"] for _, r in pat) else globals()["N"]  # frames of several thousand rows for the big patterns
     cols = {}
     for c in COLS_NUM:
         cols[c] = env.column(c.replace(" ", "_"), N)
-    clean = env.frame({**cols, **COLS_CAT})
+    clean = env.frame({**cols, **{k: (v * (N // len(v) + 1))[:N] for k, v in COLS_CAT.items()}})
     if dupindex:
         clean.index = [i // 2 for i in range(N)]
     dirty = clean.copy()
